@@ -36,6 +36,23 @@ def make_cases(tier, seed):
         c = {'id': 'p%05d' % i, 'preamble': pre, 'open': {'id': 'o0', 'kind': r.choice(['name', 'fd']), 'comp': r.choice(['none', 'none', 'gzip', 'xz'])},
              'ops': [{'op': 'qr', 'r': {'asn': '4153'}}, {'op': 'wb'}]}
         cases.append(c)
+    # wide (>= 2^32) members of later parameter sets at every position of the 2048-byte encoder buffer: a text member of
+    # the first set grows by one byte per case (2100 consecutive lengths cover every alignment of every following member)
+    span = 2100 if tier == 'quick' else 4200
+    for L in range(span):
+        r = gen.seeded(seed, 'C09a', L % 7)
+        wide = lambda: r.choice([2 ** 32, 2 ** 32 + 1, 2 ** 40, 2 ** 63, 2 ** 64 - 1])
+        bp0 = gen.gen_bp(r, tps=1000, maxi=5)
+        bp0.pop('cp', None)
+        bp0['samp'] = ('73' * L)
+        sets = [bp0]
+        for k in range(2):
+            bp = gen.gen_bp(r, tps=wide(), maxi=wide())
+            bp['cp'] = {'qto': wide(), 'sto': wide(), 'snap': wide(), 'filter': ('66' * (k * 300))}
+            sets.append(bp)
+        pre = {'major': 1, 'minor': 0, 'private': None if L % 2 else 3, 'bps': sets}
+        cases.append({'id': 'a%05d' % L, 'preamble': pre, 'open': {'id': 'o0', 'kind': 'fd', 'comp': 'none'},
+                      'ops': [{'op': 'qr', 'r': {'asn': '4153'}}, {'op': 'wb'}]})
     return cases
 
 
